@@ -74,7 +74,7 @@ for pid in ALL:
 
 manifest = {
  "version": 1,
- "setup_cmd": "cd /verif/harness && CARGO_NET_OFFLINE=true cargo build --release --offline",
+ "setup_cmd": "cd /verif/harness && CARGO_NET_OFFLINE=true cargo build --release --offline && ./target/release/vcheck selftest",
  "hooks": {
    "guard": "verif-hooks (cargo feature of tower-resilience-core, forwarded by tower-resilience-retry and tower-resilience-adaptive)",
    "enable": "/verif/harness/Cargo.toml depends on /repo/crates/* by path with features = [\"verif-hooks\"] on core, retry and adaptive; every ./check rebuilds them from /repo's working tree",
